@@ -207,3 +207,39 @@ Definition sview (t : stab) : view :=
   {| v_start := fun sc bol =>
        match aget (s_starts t) (start_of (s_bol t) sc bol) with Some p => St p | None => Bad end;
      v_step := sstep' t; v_acc := sacc' t; v_stop := fstop |}.
+
+(** ** REJECT / variable-trailing-context scanners: [yy_accept] indexes
+    [yy_acclist]; the slice [yy_accept[s] .. yy_accept[s+1]) lists the accepting
+    numbers of state [s] (rule numbers, possibly or-ed with YY_TRAILING_MASK, and
+    head markers rule|YY_TRAILING_HEAD_MASK). *)
+Fixpoint aslice (a : arr) (from : Z) (n : nat) : option (list Z) :=
+  match n with
+  | O => Some []
+  | S n' => x <- aget a from ;; rest <- aslice a (from + 1) n' ;; Some (x :: rest)
+  end.
+
+Definition accl_of (accept acclist : arr) (i : ist) : option (list Z) :=
+  match i with
+  | Bad => None
+  | Jam => Some []
+  | St s =>
+      lo <- aget accept s ;;
+      hi <- aget accept (s + 1) ;;
+      if (lo <=? 0) || (hi <? lo) then Some [] else aslice acclist lo (Z.to_nat (hi - lo))
+  end.
+
+Record rtab := { r_c : ctab; r_acclist : arr }.
+
+(** In a REJECT scanner [v_acc] is not used by the scanner; the view keeps the
+    first entry of the slice so that the uniform interface stays meaningful. *)
+Definition rview (t : rtab) : view :=
+  {| v_start := fun sc bol => St (start_of (c_bol (r_c t)) sc bol);
+     v_step := cstep (r_c t);
+     v_acc := fun i => match accl_of (c_accept (r_c t)) (r_acclist t) i with
+                       | Some [] => Some 0
+                       | Some (x :: _) => Some x
+                       | None => None
+                       end;
+     v_stop := cstop (r_c t) |}.
+
+Definition raccl (t : rtab) (i : ist) : option (list Z) := accl_of (c_accept (r_c t)) (r_acclist t) i.
